@@ -40,3 +40,95 @@ def run_mode(ctx, exe, mode, n, prefixes, classify, name, seeds=None, extra=None
             for tok in open(sp).read().split():
                 k, _, v = tok.rpartition("=")
                 dist[k] = dist.get(k, 0) + int(v)
+
+
+CORPUS = os.path.join(os.path.dirname(os.path.abspath(__file__)), "aof_corpus.txt")
+
+
+def _same_snapshot(real, model):
+    """real restart snapshot vs `reload` (model prints '<holds>|<values>#<classes>'); '~' = value not predicted."""
+    m = model.split("#")[0]
+    if "|" not in real or "|" not in m:
+        return real == m
+    rh, rv = real.split("|", 1)
+    mh, mv = m.split("|", 1)
+    if rh != mh:
+        return False
+    rvd = dict(x.split("=", 1) for x in rv.split(";") if "=" in x)
+    mvd = dict(x.split("=", 1) for x in mv.split(";") if "=" in x)
+    for k in set(rvd) | set(mvd):
+        if mvd.get(k) == "~":
+            continue
+        if rvd.get(k) != mvd.get(k):
+            return False
+    return True
+
+
+def run_restart(ctx, exe, n, prefixes, seeds=None, timeout=1500, corpus=True):
+    """restart mode: (1) Slock.Aof.recover vs the harness oracle (aofjournal lines, exact); (2) the REAL restart snapshot vs
+    Slock.Aof.reload (aofreload lines; a disagreement breaks the tie whatever the history shape); (3) the monitors; the
+    replay-side ones ("C07:replay:?") get the model's class of the first record of that key that the restart treats differently."""
+    for i, sd in enumerate(seeds or [ctx.seed]):
+        extra = {"VERIF_CORPUS": CORPUS} if (corpus and i == 0) else {}
+        outdir = ctx.run_harness(exe, "restart", n, seed=sd, extra=extra, timeout=timeout)
+        if not outdir:
+            continue
+        dis = ctx.diff(outdir, "aofjournal", classify=lambda op, impl: ("aofjournal", hash(op) % 4096))
+        if dis:
+            d = dis[0]
+            ctx.broken.append({"kind": "correspondence", "name": "Slock.Aof.recover vs the harness's reference replay",
+                               "detail": f"{len(dis)} disagreements; first: op={d[1][:1200]} impl={d[2][:600]} model={d[3][:600]}"})
+        # reload vs real restart
+        ops = open(os.path.join(outdir, "aofreload.ops")).read().split("\n")
+        impl = open(os.path.join(outdir, "aofreload.impl")).read().split("\n")
+        mp = ctx.run_model(os.path.join(outdir, "aofreload.ops"))
+        classes = {}
+        if mp is not None:
+            model = open(mp).read().split("\n")
+            bad = []
+            for j in range(min(len(ops), len(impl))):
+                if not ops[j]:
+                    continue
+                ctx.cov["evaluations"] += 1
+                mj = model[j] if j < len(model) else ""
+                if not _same_snapshot(impl[j], mj):
+                    bad.append((j, ops[j], impl[j], mj))
+                cl = {}
+                if "#" in mj:
+                    for tok in mj.split("#", 1)[1].split(","):
+                        if ":" in tok:
+                            k, c = tok.split(":", 1)
+                            cl[k] = c
+                classes[j] = cl
+                ctx.distinct.add(("aofreload", impl[j].count(";"), tuple(sorted(set(cl.values()))), len(ops[j]) // 256))
+            ctx.cov["traces_validated_against_impl"] += len(classes)
+            ctx.cov["disagreements_checked"] += len(bad)
+            if bad:
+                d = bad[0]
+                ctx.broken.append({"kind": "correspondence", "name": "Slock.Aof.reload vs the real restart (fresh SLock on a copy of the directory)",
+                                   "detail": f"{len(bad)} disagreements; first: op={d[1][:1500]} real={d[2][:700]} model={d[3][:700]}"})
+                ctx.cov.setdefault("disagreements", []).append({"op": d[1][:4000], "impl": d[2][:2000], "model": d[3][:2000]})
+        # monitors
+        seen = {}
+        mon = os.path.join(outdir, "restart.mon")
+        if os.path.exists(mon):
+            for line in open(mon):
+                line = line.strip()
+                if not line:
+                    continue
+                m = json.loads(line)
+                sig = m["signature"]
+                if sig == "C07:replay:?":
+                    r = m["replay"]
+                    cl = classes.get(r.get("reloadLine"), {})
+                    sig = "C07:replay:" + cl.get(f"{r.get('db')}.{r.get('key')}", "other")
+                seen[sig] = seen.get(sig, 0) + 1
+                if any(sig.startswith(px) for px in prefixes):
+                    ctx.add_violation(m["what"], sig, m["replay"])
+        ctx.cov.setdefault("monitor_signatures_seen", {}).update(seen)
+        sp = os.path.join(outdir, "restart.stats")
+        if os.path.exists(sp):
+            dist = ctx.cov.setdefault("distribution", {}).setdefault("restart", {})
+            for tok in open(sp).read().split():
+                k, _, v = tok.rpartition("=")
+                dist[k] = dist.get(k, 0) + int(v)
